@@ -1704,9 +1704,12 @@ func (c *codegen) Visit(node ast.Node) ast.Visitor {
 
 		args := transformArgs(f, n.Fun, isBuiltin, n.Args)
 
-		if isFuncValue {
-			// The calls in the expression that gives the function come
-			// before the ones in the arguments.
+		// The calls in the expression that gives the function come before
+		// the ones in the arguments. Without calls it is evaluated after the
+		// arguments: nothing is kept on the stack while they are evaluated
+		// (an argument may panic and the panic may be recovered).
+		funFirst := isFuncValue && c.hasCalls(n.Fun)
+		if funFirst {
 			ast.Walk(c, n.Fun)
 		}
 		// Handle the arguments
@@ -1762,7 +1765,19 @@ func (c *codegen) Visit(node ast.Node) ast.Visitor {
 			}
 		case isFuncValue:
 			// The function value is below the arguments.
-			c.emitRoll(numArgs)
+			depth := numArgs
+			if len(n.Args) == 1 {
+				if tuple, ok := c.typeOf(n.Args[0]).(*types.Tuple); ok {
+					// f(g()) with a multi-valued g: one argument
+					// expression, tuple.Len() items on the stack.
+					depth = tuple.Len()
+				}
+			}
+			if funFirst {
+				c.emitRoll(depth)
+			} else {
+				ast.Walk(c, n.Fun)
+			}
 			emit.Opcodes(c.prog.BinWriter, opcode.CALLA)
 		case isSyscall(f):
 			c.convertSyscall(f, n)
